@@ -135,6 +135,11 @@ fn deliver(s: &mut Scn, peer: usize, tid: u32, act: Act) {
 }
 
 pub fn put_case(r: &mut Rng, n: usize, kind: u8, tokenless: Vec<bool>, script: Vec<(usize, Act)>, expire: bool) -> String {
+    put_case_x(r, n, kind, tokenless, script, expire, false)
+}
+
+/// `big_extra`: the caller may name 270 token-bearing extra nodes (more than 255 targets)
+pub fn put_case_x(r: &mut Rng, n: usize, kind: u8, tokenless: Vec<bool>, script: Vec<(usize, Act)>, expire: bool, big_extra: bool) -> String {
     let mut s = Scn::new(r, n, false, Default::default());
     let sk = SigningKey::from_bytes(&[7u8; 32]);
     let request = make_request(r, kind, 5, None, b"value", &sk);
@@ -142,19 +147,57 @@ pub fn put_case(r: &mut Rng, n: usize, kind: u8, tokenless: Vec<bool>, script: V
     // in a third of the cases the caller names extra nodes it never asked for a token: freshly built nodes
     // (no token) at the addresses of one or two further peers, which must not be written to
     let mut tokenless = tokenless;
-    let extra: Option<Box<[dht::Node]>> = if r.chance(1, 3) {
-        let k = 1 + r.below(2) as usize;
-        let mut v = Vec::new();
-        for j in 0..k {
-            let p = Peer::new(crate::scn::peer_id(90 + j, r));
-            v.push(dht::Node::new(Id::from(p.id), p.addr));
-            s.peers.push(p);
-            tokenless.push(true);
+    s.listed = Some(n);
+    // extra nodes that carry a token (as if taken from an earlier lookup's result): they are written to, each with its own
+    let mut extra_tokenful = 0usize;
+    let extra: Option<Box<[dht::Node]>> = match if big_extra { 3 } else { r.below(6) } {
+        0 | 1 => {
+            let k = 1 + r.below(2) as usize;
+            let mut v = Vec::new();
+            for j in 0..k {
+                let p = Peer::new(crate::scn::peer_id(90 + j, r));
+                v.push(dht::Node::new(Id::from(p.id), p.addr));
+                s.peers.push(p);
+                tokenless.push(true);
+            }
+            Some(v.into())
         }
-        Some(v.into())
-    } else {
-        None
+        2 => {
+            // a token-less node in front of token-bearing ones, and one at the end
+            let mut v = Vec::new();
+            for j in 0..5usize {
+                let p = Peer::new(crate::scn::peer_id(90 + j, r));
+                let bare = j == 0 || j == 2 || j == 4;
+                v.push(if bare { dht::Node::new(Id::from(p.id), p.addr) } else { node_with_token(Id::from(p.id), p.addr, peer_token(&p).into()) });
+                s.peers.push(p);
+                tokenless.push(bare);
+                if !bare {
+                    extra_tokenful += 1;
+                }
+            }
+            Some(v.into())
+        }
+        3 if big_extra => {
+            // more than 255 token-bearing targets
+            let mut v = Vec::new();
+            for j in 0..270usize {
+                let p = Peer::new(crate::scn::peer_id(300 + j, r));
+                v.push(node_with_token(Id::from(p.id), p.addr, peer_token(&p).into()));
+                s.peers.push(p);
+                tokenless.push(false);
+                extra_tokenful += 1;
+            }
+            Some(v.into())
+        }
+        _ => None,
     };
+    let mut script = script;
+    if big_extra {
+        // the 270 extra nodes answer as well: for a mutable put 200 of them with 302 (a majority of all targets)
+        for j in 0..270usize {
+            script.push((n + j, if kind == 1 && j < 200 { Act::Err(302) } else { Act::Ack }));
+        }
+    }
     s.node.actor.verif_put(request, tx, extra);
     let run = drive_lookup(&mut s, &tokenless);
     let mut result: Option<(Result<Id, PutError>, usize)> = rx.try_recv().ok().map(|x| (x, 0));
@@ -191,7 +234,8 @@ pub fn put_case(r: &mut Rng, n: usize, kind: u8, tokenless: Vec<bool>, script: V
     s.step(&mut |s, inc| s.honest(inc));
     let extra = rx.try_recv().is_ok();
     let sent: Vec<String> = run.puts.iter().map(|(p, _, _)| p.to_string()).collect();
-    let n_tokenful = run.gave_token.len();
+    // (when the lookup itself found no token-bearing node the put fails at once: the extra nodes are not tried)
+    let n_tokenful = run.gave_token.len() + if run.gave_token.is_empty() { 0 } else { extra_tokenful };
     format!(
         "KPut {} [{}] [{}] {} {} {} {}",
         boolean(kind == 1),
@@ -492,5 +536,8 @@ pub fn generate(seed: u64, scale: usize, which: &str) -> Cases {
     }
     // all peers tokenless: nothing can be written
     cases.push("no_tokens", put_case(&mut r, 3, 0, vec![true; 3], vec![], true));
+    // more than 255 targets: 270 token-bearing extra nodes next to the lookup's own
+    cases.push("extra_270_acks", put_case_x(&mut r, 3, 0, vec![false; 3], vec![(0, Act::Err(203)), (1, Act::Ack)], true, true));
+    cases.push("extra_270_mutable_302_majority", put_case_x(&mut r, 3, 1, vec![false; 3], vec![(0, Act::Ack), (1, Act::Ack), (2, Act::Ack)], true, true));
     cases
 }
